@@ -406,6 +406,10 @@ def run_case(case):
                     def __init__(self, *a, **k):
                         self.pf = realpf(*a, **k)
                         self.metadata = self.pf.metadata
+                        self.num_row_groups = self.pf.num_row_groups
+
+                    def __getattr__(self, name):  # anything else of the file's interface
+                        return getattr(self.pf, name)
 
                     def read_row_group(self, i, columns=None):
                         t = self.pf.read_row_group(i, columns)  # raises past the last group
